@@ -340,8 +340,16 @@ def prefix_guards(ctx, rule, cons, flat=None):
         hit = None
         why = 'no `any(a != b)` guard over the zipped generator iterators'
         for c, a, r in flat:
+            s = None
             if a[0] == 'pred' and a[1] == 'any' and a[3] is False and r['eff'] != 'bypass':
                 s = a[2][0]
+            elif a[0] == 'cmp' and a[1] == 'Eq' and r['eff'] != 'bypass' and a[2].startswith('each(') and a[3].startswith('each('):
+                # the same comparison written as a loop over the zipped iterators with an early `return Err` on the first difference
+                zs = [x[1] for x in c if x[0] == 'forall' and x[1].startswith('zip(') and fld in x[1]]
+                if zs and fld in a[2] and fld in a[3]:
+                    s = zs[0]
+                    c = tuple(x for x in c if not (x[0] == 'forall' and x[1] == zs[0]))
+            if s is not None:
                 if 'each(p1)' in s and fld in s and s.count(fld) >= 2 and s.startswith('zip('):
                     foralls = [x for x in c if x[0] == 'forall']
                     # the only member exempt from the comparison is the selected one itself (index test)
